@@ -79,8 +79,8 @@ m("c02_cwmh_compare_against_step_start", "C02", E + "_cwmh.py",
   "            alpha = min(0, target_eval_star - target_eval_t)",
   "            alpha = min(0, target_eval_star - self.current_target_logd)")
 m("c02_legacy_mala_grad_not_updated", "C02", L + "_langevin_algorithm.py",
-  "        if (log_u <= log_alpha) and (np.isnan(logpi_eval_star) == False):\n            return x_star, logpi_eval_star, g_logpi_star, 1",
-  "        if (log_u <= log_alpha) and (np.isnan(logpi_eval_star) == False):\n            return x_star, logpi_eval_star, g_target_eval_t, 1")
+  "(np.isinf(logpi_eval_star) == False):\n            return x_star, logpi_eval_star, g_logpi_star, 1",
+  "(np.isinf(logpi_eval_star) == False):\n            return x_star, logpi_eval_star, g_target_eval_t, 1")
 m("c02_legacy_pcn_ratio_uses_prior", "C02", L + "_pcn.py",
   "        ratio = loglike_eval_star - loglike_eval_t  # proposal is symmetric",
   "        ratio = loglike_eval_star - loglike_eval_t + self.prior.logd(x_star) - self.prior.logd(x_t) # proposal is symmetric")
